@@ -32,9 +32,19 @@
 (* fallback) are "matrix leaves": kind "Dense" (so Denote returns p.m)     *)
 (* with the real class in p.cls.                                           *)
 (*                                                                         *)
-(* Domain restrictions (stated, enforced by MC_Rewrite!ApiOK):             *)
+(* Known defects of the code that the model reproduces (and that the      *)
+(* invariants of MC_Rewrite therefore state as explicit exceptions):       *)
+(*  - c * A inherits A's annotations whatever c is (KF-C05), so the        *)
+(*    self-adjoint shortcuts of .T / .H fire on a false premise;           *)
+(*  - A @ I returns A: the dtype of the Identity is lost (DTypeLoss).      *)
+(*                                                                         *)
+(* Domain restrictions (enforced by MC_Rewrite!ApiOK / RDivOK / Accept):   *)
 (*  - scalars of the catalog kinds (pyint, pyfloat, npf32, np0d,           *)
-(*    pycomplex, npc64); operator * operator is not an API node;           *)
+(*    pycomplex, npc64); operator * operator is not an API node            *)
+(*    (mul(A, ScalarMul) is an AmbiguousLookupError in the code);          *)
+(*  - catalog objects are leaf operators (any class, possibly wrapped by   *)
+(*    one annotation declaration) and plain arrays; two references are     *)
+(*    the same Python object iff they are the same catalog id;             *)
 (*  - the LU / Cholesky fallback of inv is opaque: its factors come from   *)
 (*    a floating-point pivoted factorisation, the model keeps only the     *)
 (*    class structure Product[TriangularInv, TriangularInv(, Permutation)] *)
@@ -63,65 +73,65 @@ RW_LE == {ab \in Hints \X Hints: HintLE(ab[1], ab[2])}
 
 ---------------------------------------------------------------------------
 (* 2. The rule table, in registration order (= source order of each file). *)
-R(f, idx, name, types, prec, cond) ==
+Rule(f, idx, name, types, prec, cond) ==
     [f |-> f, idx |-> idx, name |-> name, types |-> types, prec |-> prec, cond |-> cond,
      p2 |-> 2 * prec + (IF cond THEN 1 ELSE 0)]
 LO == "LinearOperator"
 RW_Sigs == <<
     \* cola/fns.py
-    R("dot", 0, "dot_LO_LO", <<LO, LO>>, 0, FALSE),
-    R("dot", 1, "dot_Product_LO", <<"Product", LO>>, 0, FALSE),
-    R("dot", 2, "dot_LO_Product", <<LO, "Product">>, 0, FALSE),
-    R("dot", 3, "dot_Product_Product", <<"Product", "Product">>, 0, FALSE),
-    R("dot", 4, "dot_Any_Identity", <<"Any", "Identity">>, 1, FALSE),
-    R("dot", 5, "dot_Identity_Any", <<"Identity", "Any">>, 1, FALSE),
-    R("dot", 6, "dot_Identity_Identity", <<"Identity", "Identity">>, 1, FALSE),
-    R("add", 0, "add_Any_Any", <<"Any", "Any">>, 0, FALSE),
-    R("add", 1, "add_LO_LO", <<LO, LO>>, 0, FALSE),
-    R("add", 2, "add_Sum_LO", <<"Sum", LO>>, 0, FALSE),
-    R("add", 3, "add_LO_Sum", <<LO, "Sum">>, 0, FALSE),
-    R("add", 4, "add_Sum_Sum", <<"Sum", "Sum">>, 0, FALSE),
-    R("mul", 0, "mul_LO_Scalar", <<LO, "Any">>, 0, FALSE),
-    R("mul", 1, "mul_ScalarMul_Scalar", <<"ScalarMul", "Any">>, 0, FALSE),
-    R("mul", 2, "mul_Scalar_ScalarMul", <<"Any", "ScalarMul">>, 0, FALSE),
-    R("mul", 3, "mul_ScalarMul_ScalarMul", <<"ScalarMul", "ScalarMul">>, 0, FALSE),
-    R("transpose", 0, "transpose_LO", <<LO>>, 0, FALSE),
-    R("transpose", 1, "transpose_Transpose", <<"Transpose">>, 0, FALSE),
-    R("transpose", 2, "transpose_Dense", <<"Dense">>, 0, FALSE),
-    R("transpose", 3, "transpose_LO_if_real_selfadjoint", <<LO>>, 0, TRUE),
-    R("transpose", 4, "transpose_Triangular", <<"Triangular">>, 0, FALSE),
-    R("transpose", 5, "transpose_Sparse", <<"Sparse">>, 0, FALSE),
-    R("adjoint", 0, "adjoint_LO", <<LO>>, 0, FALSE),
-    R("adjoint", 1, "adjoint_LO_if_selfadjoint", <<LO>>, 0, TRUE),
-    R("adjoint", 2, "adjoint_Adjoint", <<"Adjoint">>, 0, FALSE),
-    R("adjoint", 3, "adjoint_Dense", <<"Dense">>, 0, FALSE),
-    R("adjoint", 4, "adjoint_Triangular", <<"Triangular">>, 0, FALSE),
-    R("kron", 0, "kron_Any_Any", <<"Any", "Any">>, 0, FALSE),
-    R("kron", 1, "kron_LO_LO", <<LO, LO>>, 0, FALSE),
-    R("kron", 2, "kron_Diagonal_Diagonal", <<"Diagonal", "Diagonal">>, 0, FALSE),
-    R("kron", 3, "kron_Kronecker_LO", <<"Kronecker", LO>>, 0, FALSE),
-    R("kron", 4, "kron_LO_Kronecker", <<LO, "Kronecker">>, 0, FALSE),
-    R("kron", 5, "kron_Kronecker_Kronecker", <<"Kronecker", "Kronecker">>, 0, FALSE),
-    R("kronsum", 0, "kronsum_Any_Any", <<"Any", "Any">>, 0, FALSE),
-    R("kronsum", 1, "kronsum_LO_LO", <<LO, LO>>, 0, FALSE),
-    R("kronsum", 2, "kronsum_KronSum_LO", <<"KronSum", LO>>, 0, FALSE),
-    R("kronsum", 3, "kronsum_LO_KronSum", <<LO, "KronSum">>, 0, FALSE),
-    R("kronsum", 4, "kronsum_KronSum_KronSum", <<"KronSum", "KronSum">>, 0, FALSE),
+    Rule("dot", 0, "dot_LO_LO", <<LO, LO>>, 0, FALSE),
+    Rule("dot", 1, "dot_Product_LO", <<"Product", LO>>, 0, FALSE),
+    Rule("dot", 2, "dot_LO_Product", <<LO, "Product">>, 0, FALSE),
+    Rule("dot", 3, "dot_Product_Product", <<"Product", "Product">>, 0, FALSE),
+    Rule("dot", 4, "dot_Any_Identity", <<"Any", "Identity">>, 1, FALSE),
+    Rule("dot", 5, "dot_Identity_Any", <<"Identity", "Any">>, 1, FALSE),
+    Rule("dot", 6, "dot_Identity_Identity", <<"Identity", "Identity">>, 1, FALSE),
+    Rule("add", 0, "add_Any_Any", <<"Any", "Any">>, 0, FALSE),
+    Rule("add", 1, "add_LO_LO", <<LO, LO>>, 0, FALSE),
+    Rule("add", 2, "add_Sum_LO", <<"Sum", LO>>, 0, FALSE),
+    Rule("add", 3, "add_LO_Sum", <<LO, "Sum">>, 0, FALSE),
+    Rule("add", 4, "add_Sum_Sum", <<"Sum", "Sum">>, 0, FALSE),
+    Rule("mul", 0, "mul_LO_Scalar", <<LO, "Any">>, 0, FALSE),
+    Rule("mul", 1, "mul_ScalarMul_Scalar", <<"ScalarMul", "Any">>, 0, FALSE),
+    Rule("mul", 2, "mul_Scalar_ScalarMul", <<"Any", "ScalarMul">>, 0, FALSE),
+    Rule("mul", 3, "mul_ScalarMul_ScalarMul", <<"ScalarMul", "ScalarMul">>, 0, FALSE),
+    Rule("transpose", 0, "transpose_LO", <<LO>>, 0, FALSE),
+    Rule("transpose", 1, "transpose_Transpose", <<"Transpose">>, 0, FALSE),
+    Rule("transpose", 2, "transpose_Dense", <<"Dense">>, 0, FALSE),
+    Rule("transpose", 3, "transpose_LO_if_real_selfadjoint", <<LO>>, 0, TRUE),
+    Rule("transpose", 4, "transpose_Triangular", <<"Triangular">>, 0, FALSE),
+    Rule("transpose", 5, "transpose_Sparse", <<"Sparse">>, 0, FALSE),
+    Rule("adjoint", 0, "adjoint_LO", <<LO>>, 0, FALSE),
+    Rule("adjoint", 1, "adjoint_LO_if_selfadjoint", <<LO>>, 0, TRUE),
+    Rule("adjoint", 2, "adjoint_Adjoint", <<"Adjoint">>, 0, FALSE),
+    Rule("adjoint", 3, "adjoint_Dense", <<"Dense">>, 0, FALSE),
+    Rule("adjoint", 4, "adjoint_Triangular", <<"Triangular">>, 0, FALSE),
+    Rule("kron", 0, "kron_Any_Any", <<"Any", "Any">>, 0, FALSE),
+    Rule("kron", 1, "kron_LO_LO", <<LO, LO>>, 0, FALSE),
+    Rule("kron", 2, "kron_Diagonal_Diagonal", <<"Diagonal", "Diagonal">>, 0, FALSE),
+    Rule("kron", 3, "kron_Kronecker_LO", <<"Kronecker", LO>>, 0, FALSE),
+    Rule("kron", 4, "kron_LO_Kronecker", <<LO, "Kronecker">>, 0, FALSE),
+    Rule("kron", 5, "kron_Kronecker_Kronecker", <<"Kronecker", "Kronecker">>, 0, FALSE),
+    Rule("kronsum", 0, "kronsum_Any_Any", <<"Any", "Any">>, 0, FALSE),
+    Rule("kronsum", 1, "kronsum_LO_LO", <<LO, LO>>, 0, FALSE),
+    Rule("kronsum", 2, "kronsum_KronSum_LO", <<"KronSum", LO>>, 0, FALSE),
+    Rule("kronsum", 3, "kronsum_LO_KronSum", <<LO, "KronSum">>, 0, FALSE),
+    Rule("kronsum", 4, "kronsum_KronSum_KronSum", <<"KronSum", "KronSum">>, 0, FALSE),
     \* cola/linalg/inverse/inv.py   (the abstract definition supplies alg = Auto())
-    R("inv", 0, "inv_LO_GMRES", <<LO, "GMRES">>, -1, FALSE),
-    R("inv", 1, "inv_LO_CG", <<LO, "CG">>, -1, FALSE),
-    R("inv", 2, "inv_LO_Auto", <<LO, "Auto">>, -1, FALSE),
-    R("inv", 3, "inv_LO_Cholesky", <<LO, "Cholesky">>, -1, FALSE),
-    R("inv", 4, "inv_LO_LU", <<LO, "LU">>, -1, FALSE),
-    R("inv", 5, "inv_LO_if_unitary", <<LO, "Algorithm">>, 0, TRUE),
-    R("inv", 6, "inv_Identity", <<"Identity", "Algorithm">>, 0, FALSE),
-    R("inv", 7, "inv_ScalarMul", <<"ScalarMul", "Algorithm">>, 0, FALSE),
-    R("inv", 8, "inv_Permutation", <<"Permutation", "Algorithm">>, 0, FALSE),
-    R("inv", 9, "inv_Product_if_all_square", <<"Product", "Algorithm">>, 0, TRUE),
-    R("inv", 10, "inv_BlockDiag", <<"BlockDiag", "Algorithm">>, 0, FALSE),
-    R("inv", 11, "inv_Kronecker", <<"Kronecker", "Algorithm">>, 0, FALSE),
-    R("inv", 12, "inv_Diagonal", <<"Diagonal", "Algorithm">>, 0, FALSE),
-    R("inv", 13, "inv_Triangular", <<"Triangular", "Algorithm">>, 0, FALSE)
+    Rule("inv", 0, "inv_LO_GMRES", <<LO, "GMRES">>, -1, FALSE),
+    Rule("inv", 1, "inv_LO_CG", <<LO, "CG">>, -1, FALSE),
+    Rule("inv", 2, "inv_LO_Auto", <<LO, "Auto">>, -1, FALSE),
+    Rule("inv", 3, "inv_LO_Cholesky", <<LO, "Cholesky">>, -1, FALSE),
+    Rule("inv", 4, "inv_LO_LU", <<LO, "LU">>, -1, FALSE),
+    Rule("inv", 5, "inv_LO_if_unitary", <<LO, "Algorithm">>, 0, TRUE),
+    Rule("inv", 6, "inv_Identity", <<"Identity", "Algorithm">>, 0, FALSE),
+    Rule("inv", 7, "inv_ScalarMul", <<"ScalarMul", "Algorithm">>, 0, FALSE),
+    Rule("inv", 8, "inv_Permutation", <<"Permutation", "Algorithm">>, 0, FALSE),
+    Rule("inv", 9, "inv_Product_if_all_square", <<"Product", "Algorithm">>, 0, TRUE),
+    Rule("inv", 10, "inv_BlockDiag", <<"BlockDiag", "Algorithm">>, 0, FALSE),
+    Rule("inv", 11, "inv_Kronecker", <<"Kronecker", "Algorithm">>, 0, FALSE),
+    Rule("inv", 12, "inv_Diagonal", <<"Diagonal", "Algorithm">>, 0, FALSE),
+    Rule("inv", 13, "inv_Triangular", <<"Triangular", "Algorithm">>, 0, FALSE)
 >>
 
 \* the resolver of the plum fork (Resolver.resolve, Signature.match / __le__), instantiated on this table
@@ -296,7 +306,7 @@ transpose_Dense(A) ==
 transpose_LO_if_real_selfadjoint(A) == A
 transpose_Triangular(A) == MkTriangular(MTr(Payload(A).m), Payload(A).dt, ~Payload(A).lower)
 transpose_Sparse(A) == MkSparse(MTr(Payload(A).m), Payload(A).dt)      \* Sparse(data, cols, rows, swapped shape)
-T(A) ==
+TransposeOf(A) ==
     LET r == Pick("transpose", <<Arg(A)>>) IN
     CASE r = "transpose_LO" -> transpose_LO(A)
       [] r = "transpose_Transpose" -> transpose_Transpose(A)
@@ -311,7 +321,7 @@ adjoint_LO_if_selfadjoint(A) == A
 adjoint_Adjoint(A) == A.a[1]
 adjoint_Dense(A) == MkDense(MAdj(Payload(A).m), Payload(A).dt)
 adjoint_Triangular(A) == MkTriangular(MAdj(Payload(A).m), Payload(A).dt, ~Payload(A).lower)
-H(A) ==
+AdjointOf(A) ==
     LET r == Pick("adjoint", <<Arg(A)>>) IN
     CASE r = "adjoint_LO" -> adjoint_LO(A)
       [] r = "adjoint_LO_if_selfadjoint" -> adjoint_LO_if_selfadjoint(A)
@@ -377,7 +387,7 @@ inv_LO_Auto(A) ==          \* np.prod(A.shape) <= 1e6 in every model
     IF IsaAnn(A, "PSD") THEN Inv(A, "Cholesky") ELSE Inv(A, "LU")
 inv_LO_Cholesky(A) == OpaqueInverse(A, "Cholesky")      \* inv(L.H) @ inv(L): Product[TriangularInv, TriangularInv]
 inv_LO_LU(A) == OpaqueInverse(A, "LU")       \* inv(U) @ inv(L) @ inv(P): Product[TriangularInv, TriangularInv, Permutation]
-inv_LO_if_unitary(A) == N("Annot", <<H(A)>>, [ann |-> "Unitary"])
+inv_LO_if_unitary(A) == N("Annot", <<AdjointOf(A)>>, [ann |-> "Unitary"])
 inv_Identity(A) == A
 inv_ScalarMul(A) == MkScalarMul(QInv(Payload(A).c), Payload(A).n, Payload(A).dt)
 \* Permutation(argsort(perm))
@@ -418,8 +428,15 @@ RDiv(A, s) == Mul(Inv(A, "Auto"), s)                                        \* _
 (* 12. Impl: the tree cola builds for an API-level expression              *)
 IsApi(k) == k \in {"op_matmul", "op_add", "op_sub", "op_sum", "op_neg", "op_smul", "op_rsmul", "op_div", "op_rdiv",
                    "op_kron", "op_kronsum", "op_block_diag", "op_T", "op_H"}
-RECURSIVE FoldL(_, _, _)
-FoldL(Op(_, _), acc, rest) == IF rest = <<>> THEN acc ELSE FoldL(Op, Op(acc, Head(rest)), Tail(rest))
+\* left-to-right folds of the binary Python operators over an operand list
+MatMulSeq(xs) ==
+    LET RECURSIVE F(_, _)
+        F(acc, i) == IF i > Len(xs) THEN acc ELSE F(MatMul(acc, xs[i]), i + 1)
+    IN F(xs[1], 2)
+OpAddSeq(xs) ==
+    LET RECURSIVE F(_, _)
+        F(acc, i) == IF i > Len(xs) THEN acc ELSE F(OpAdd(acc, xs[i]), i + 1)
+    IN F(xs[1], 2)
 
 RECURSIVE Impl(_)
 Impl(e) ==
@@ -427,10 +444,10 @@ Impl(e) ==
         Xs == [i \in 1..Len(e.a) |-> Impl(e.a[i])]
     IN
     CASE ~IsApi(e.k) -> e                                                   \* a catalog object
-      [] e.k = "op_matmul" -> FoldL(MatMul, X(1), Tail(Xs))                 \* A @ B (@ C ...), left to right
+      [] e.k = "op_matmul" -> MatMulSeq(Xs)                 \* A @ B (@ C ...), left to right
       [] e.k = "op_add" -> OpAdd(X(1), X(2))
       [] e.k = "op_sub" -> Sub(X(1), X(2))
-      [] e.k = "op_sum" -> FoldL(OpAdd, X(1), Tail(Xs))                     \* sum([..]): 0 + A is A (Number 0)
+      [] e.k = "op_sum" -> OpAddSeq(Xs)                     \* sum([..]): 0 + A is A (Number 0)
       [] e.k = "op_neg" -> Neg(X(1))
       [] e.k \in {"op_smul", "op_rsmul"} -> Mul(X(1), e.p)                  \* c * A = A.__rmul__(c) = A * c
       [] e.k = "op_div" -> Div(X(1), e.p)
@@ -438,21 +455,35 @@ Impl(e) ==
       [] e.k = "op_kron" -> Kron(X(1), X(2))
       [] e.k = "op_kronsum" -> KronSumF(X(1), X(2))
       [] e.k = "op_block_diag" -> BlockDiagF(Xs)
-      [] e.k = "op_T" -> T(X(1))
-      [] e.k = "op_H" -> H(X(1))
+      [] e.k = "op_T" -> TransposeOf(X(1))
+      [] e.k = "op_H" -> AdjointOf(X(1))
+
+\* KNOWN FINDING (KF-C03-identity-permutation-dtype): the Identity rules of dot return the other operand itself, so
+\* the dtype of the eliminated Identity takes no part in the promotion (f32 A @ f64 I is the f32 A).  DTypeLoss(e)
+\* marks the expressions in which that happened somewhere; everywhere else the dtype is preserved exactly.
+DotLosesDType(A, B) ==
+    /\ A.k # "Array" /\ B.k # "Array"
+    /\ Pick("dot", <<Arg(A), Arg(B)>>) \in {"dot_Any_Identity", "dot_Identity_Any", "dot_Identity_Identity"}
+    /\ DTypeOf(Dot(A, B)) # Promote(DTypeOf(A), DTypeOf(B))
+RECURSIVE DTypeLoss(_)
+DTypeLoss(e) ==
+    \/ \E i \in 1..Len(e.a): DTypeLoss(e.a[i])
+    \/ /\ e.k = "op_matmul"
+       /\ LET Xs == [i \in 1..Len(e.a) |-> Impl(e.a[i])] IN
+          \E i \in 2..Len(Xs): DotLosesDType(MatMulSeq(SubSeq(Xs, 1, i - 1)), Xs[i])
+DTypeLE(a, b) == Promote(a, b) = b
 
 ---------------------------------------------------------------------------
 (* 13. Facts about Impl trees                                              *)
-RECURSIVE AllNodes(_, _)
-AllNodes(t, P(_)) == P(t) /\ \A i \in 1..Len(t.a): AllNodes(t.a[i], P)
-RECURSIVE AnyNode(_, _)
-AnyNode(t, P(_)) == P(t) \/ \E i \in 1..Len(t.a): AnyNode(t.a[i], P)
-
 \* every dispatch resolved to exactly one rule and the result is a constructor-level tree (or an array)
-Resolved(t) == AllNodes(t, LAMBDA x: x.k \in CtorKinds \cup {"Array"})
-HasOpaque(t) == AnyNode(t, IsOpaque)
+RECURSIVE Resolved(_)
+Resolved(t) == t.k \in CtorKinds \cup {"Array"} /\ \A i \in 1..Len(t.a): Resolved(t.a[i])
+RECURSIVE HasOpaque(_)
+HasOpaque(t) == IsOpaque(t) \/ \E i \in 1..Len(t.a): HasOpaque(t.a[i])
 \* every annotation the code infers anywhere in t is true of the exact matrix
-AnnsTrue(t) == AllNodes(t, LAMBDA x: x.k = "Array" \/ \A a \in Anns(x): Holds(a, Denote(x)))
+RECURSIVE AnnsTrue(_)
+AnnsTrue(t) == /\ t.k = "Array" \/ \A a \in Anns(t): Holds(a, Denote(t))
+               /\ \A i \in 1..Len(t.a): AnnsTrue(t.a[i])
 
 \* the normal-form facts the rules establish on every tree they build from catalog objects
 NormalNode(x) ==
@@ -470,11 +501,14 @@ NormalNode(x) ==
                         /\ ~IsaAnn(x.a[1], "SelfAdjoint")
     \* every BlockDiag / Kronecker / Sum / Product child is an operator (arrays are lazified)
     /\ \A i \in 1..Len(x.a): x.a[i].k # "Array"
-Normal(t) == AllNodes(t, NormalNode)
+RECURSIVE Normal(_)
+Normal(t) == NormalNode(t) /\ \A i \in 1..Len(t.a): Normal(t.a[i])
 \* identity elimination + scalars in front: no Product built by dot / mul starts with an Identity
 \* (inv reverses factor lists, so this is stated for expressions without c / A)
+RECURSIVE NoLeadingIdentity(_)
 NoLeadingIdentity(t) ==
-    AllNodes(t, LAMBDA x: (ClassOf(x) = "Product" /\ ~IsOpaque(x)) => ClassOf(x.a[1]) # "Identity")
+    /\ (ClassOf(t) = "Product" /\ ~IsOpaque(t)) => ClassOf(t.a[1]) # "Identity"
+    /\ \A i \in 1..Len(t.a): NoLeadingIdentity(t.a[i])
 
 ---------------------------------------------------------------------------
 (* 14. Skeleton for conformance: classes, object ids, payloads of created  *)
